@@ -297,19 +297,33 @@ def no_collapse(ctx):
     # what identifies the method: its name and its receiver - the module's NAME for a module-level builtin, the
     # instance itself (and its class) otherwise.  Anything coarser merges same-named methods of different receivers.
     obj_ = f.args.args[1].arg
-    for a in rebinds:
-        if not (isinstance(a.value, ast.Call) and call_name(a.value) == "_MyHash"):
+    # decided over the three kinds of receiver (none / a module / any other object), whatever the order and spelling
+    # of the branches: the receiver tests of the function itself are folded over each case (sa/table.py)
+    from ..table import taken, Unknown
+    isinst = unparse(t[0].test, 400)
+    cases = {
+        "None": ({"inst is None": True, "inst is not None": False, "type(inst) is type(pickle)": False, "type(inst) is not type(pickle)": True, "inst": None},
+                 ["func_name", "inst"], "an unbound builtin by (function name, None)"),
+        "module": ({"inst is None": False, "inst is not None": True, "type(inst) is type(pickle)": True, "type(inst) is not type(pickle)": False, "inst": "<module>"},
+                   ["func_name", "inst.__name__"], "a builtin of a module is identified by (function name, module name)"),
+        "object": ({"inst is None": False, "inst is not None": True, "type(inst) is type(pickle)": False, "type(inst) is not type(pickle)": True, "inst": "<object>"},
+                   ["func_name", "inst", "cls"], "a bound method by (function name, instance, class)"),
+    }
+    proxies = [a for a in rebinds if isinstance(a.value, ast.Call) and call_name(a.value) == "_MyHash"]
+    for kind, (env, want, good) in cases.items():
+        env = dict(env)
+        env[str(isinst)] = True
+        try:
+            hit = [a for a in proxies if taken(g, a, env, f, ignore=lambda tt: "inst" not in names_in(tt) and unparse(tt, 400) != isinst)]
+        except Unknown as e:
+            from ..core import Undecidable
+            raise Undecidable("receiver tests of Hasher.save not understood: %s" % e)
+        if len(hit) != 1:
+            ctx.bad(f, "a method whose receiver is %s gets %d proxies (%s): methods of different receivers share one digest, or the method is pickled by reference" % (kind, len(hit), [unparse(a.value) for a in hit]),
+                    key=HS + "::Hasher.save::proxy for receiver " + kind)
             continue
-        args_ = [unparse(x) for x in a.value.args]
-        fc = [x for x in cond_facts(g.conditions_at(g.nodes_of(a))) if "inst" in x[0]]
-        if ("type(inst) is type(pickle)", True) in fc:
-            ctx.check(args_ == ["func_name", "inst.__name__"], a, "a builtin of a module is identified by (function name, module name)",
-                      "a module-level builtin is hashed as _MyHash(%s): same-named builtins of different modules (math.pow / operator.pow) share one digest" % ", ".join(args_))
-        elif ("inst is None", True) in fc:
-            ctx.check(args_ == ["func_name", "inst"] and ("type(inst) is type(pickle)", False) in fc, a, "an unbound builtin by (function name, None)", "unexpected proxy %s under %s" % (args_, fc))
-        else:
-            ctx.check(args_ == ["func_name", "inst", "cls"] and ("type(inst) is type(pickle)", False) in fc and ("inst is None", False) in fc, a, "a bound method by (function name, instance, class)",
-                      "a bound method is hashed as _MyHash(%s) under %s: methods of different instances or classes share one digest" % (", ".join(args_), fc))
+        args_ = [unparse(x) for x in hit[0].value.args]
+        ctx.check(args_ == want, hit[0], good, "a method whose receiver is %s is hashed as _MyHash(%s): same-named methods of different receivers share one digest" % (kind, ", ".join(args_)))
     for nm, want in (("inst", obj_ + ".__self__"), ("cls", obj_ + ".__self__.__class__")):
         d_ = [a for a in nodes_of_type(f, ast.Assign) if nm in stores_to(a)]
         ctx.check(bool(d_) and all(unparse(a.value) == want for a in d_), d_[0] if d_ else f, "%s = %s" % (nm, want), "%s is computed as %s" % (nm, [unparse(a.value) for a in d_]))
